@@ -135,6 +135,11 @@ class Recorder:
         def w_obs(self, psi, dA_dt):
             out = o_obs(self, psi, dA_dt)
             rec.emit("on_observables", rec.cur, psi, dA_dt, out)
+            if rec.cur is not None:
+                # a point in the MIDDLE of update(): the n-th evaluation of the observables (n > 0: later screening iterations)
+                n = rec.cur.get("obs_calls", 0)
+                rec.cur["obs_calls"] = n + 1
+                rec.fail("update_middle", stage=rec.stage, step=rec.cur["step"], n=n)
             return out
 
         self._patch(TS, "solve_for_observables", w_obs)
@@ -148,6 +153,8 @@ class Recorder:
             if rec.cur is not None:
                 rec.cur["screen_iters"] += 1
             rec.emit("on_induced", rec.cur, current_density, A_prev, out)
+            if rec.cur is not None:
+                rec.fail("induced_exit", stage=rec.stage, step=rec.cur["step"], n=rec.cur["screen_iters"] - 1)
             return out
 
         self._patch(TS, "get_induced_vector_potential", w_ind)
